@@ -88,8 +88,10 @@ func (q *rtspRequester) request(path string, arm func()) (string, *media.Stream,
 	d, err := c.Play(url)
 	if err != nil {
 		var se *rtspc.StatusError
-		if asStatus(err, &se) && se.Method == "DESCRIBE" && se.Resp.Status == 404 {
-			return "nil", nil, ""
+		if asStatus(err, &se) && se.Resp.Status == 404 {
+			// not found at DESCRIBE, or at SETUP / PLAY (ipchub looks the stream up again
+			// there; it may have ended since DESCRIBE)
+			return "nil", nil, se.Method + " answered 404"
 		}
 		if connectionEnded(err) {
 			// the server hung up on the player while DESCRIBE / SETUP / PLAY was under way:
